@@ -1,14 +1,99 @@
 import Crv.Driver.Util
-/-! Line-protocol driver for stream `sched` (stub: every op is `bad-op` until the model is wired in). -/
-namespace Crv.Driver.Sched
+import Crv.Sched
+import Crv.Generated.Sched
+/-!
+Line-protocol driver for stream `sched` (C15). Stateless; answers come from `Crv.Sched` instantiated with
+the regenerated facts. Times are integers in one unit (the harness uses milliseconds).
 
-/-- Model state carried between the lines of this stream. -/
+  sched decide <I> <last> <now> <force>     → run | skip      one call of updateCRLs (last = 0: never finished)
+  sched scope                               → instance | global   where the finish stamp lives
+  sched pair <I> <lastOwn> <otherFinish> <now> → run | skip   tick of an instance whose own last finish is
+        <lastOwn> when another instance finished at <otherFinish>
+  sched attempts <n> <mask>                 → k               locations attempted by one UpdateCRLs over n locations,
+        bit j of <mask> (decimal) set = refreshing location j fails
+  sched inforce <k>                         → old | new       after k failed refreshes (old) … then one success (new)
+  sched admits count <I> <T> <n>            → yes | no        n runs observed in a window of length T
+  sched admits delay <I> <D> <W> <observed> → yes | no        publish → in force delay within doneBound
+  sched bound <I> <D> <W>                   → <doneBound>
+  sched provision <active|background> <nUrls> <nFiles> <fail|->  → ok inforce=<k>/<n> ticker=<b> | error
+-/
+namespace Crv.Driver.Sched
+open Crv.Sched Crv.Generated
+
 structure State where
   dummy : Unit := ()
 
 def init : State := {}
 
-/-- One line (already split into words, stream tag removed) → new state and the answer line. -/
-def step (s : State) (ws : List String) : State × String := (s, "bad-op")
+def model : Model :=
+  { global := schedLastFinishIsGlobal, prog := schedTickProg, recent := schedRecentlyFinished,
+    contOnError := schedLoopContinuesOnError }
+
+def facts : RepoFacts :=
+  { addStoresLocations := schedAddStoresLocations, addLoadsActively := schedAddLoadsActively,
+    updateEntrySetsLoaded := schedUpdateEntrySetsLoaded, updateReturnsError := schedUpdateReturnsError }
+
+def runSkip (b : Bool) : String := if b then "run" else "skip"
+
+def nat? (s : String) : Option Nat := s.toNat?
+
+def step (s : State) (ws : List String) : State × String :=
+  match ws with
+  | ["decide", i, l, n, f] =>
+    match nat? i, nat? l, nat? n, parseBool f with
+    | some i, some l, some n, some f =>
+      let (_, r) := stepEv model (fun _ => i) (fun _ => l) ⟨0, f, n, 0⟩
+      (s, runSkip r.isSome)
+    | _, _, _, _ => (s, "bad-op")
+  | ["scope"] => (s, if schedLastFinishIsGlobal then "global" else "instance")
+  | ["pair", i, lo, fo, n] =>
+    match nat? i, nat? lo, nat? fo, nat? n with
+    | some i, some lo, some fo, some n =>
+      -- instance 1's stamp is lo; instance 0 (forced) finishes at fo; then instance 1 ticks at n
+      let last0 : Nat → Nat := fun k => if model.slot k = model.slot 1 then lo else 0
+      let rs := exec model (fun _ => i) last0 [⟨0, true, fo, 0⟩, ⟨1, false, n, 0⟩]
+      (s, runSkip (rs.any (·.inst == 1)))
+    | _, _, _, _ => (s, "bad-op")
+  | ["attempts", n, m] =>
+    match nat? n, nat? m with
+    | some n, some m => (s, toString (attempted model.contOnError (fun j => !m.testBit j) (List.range n)).length)
+    | _, _ => (s, "bad-op")
+  | ["inforce", k] =>
+    match nat? k with
+    | some k =>
+      -- version 0 in force, every run publishes version 1; the first k refreshes fail, the next succeeds
+      let ok : Nat → Bool := fun j => decide (k ≤ j)
+      (s, (if inForce (fun _ => 1) ok 0 k = 0 then "old" else "new") ++ "," ++
+          (if inForce (fun _ => 1) ok 0 (k + 1) = 0 then "old" else "new"))
+    | none => (s, "bad-op")
+  | ["admits", "count", i, t, n] =>
+    match nat? i, nat? t, nat? n with
+    | some i, some t, some n =>
+      if i = 0 then (s, "bad-op") else
+      let p := t / i
+      (s, if p ≤ n + 1 ∧ n ≤ p + 2 then "yes" else "no")
+    | _, _, _ => (s, "bad-op")
+  | ["admits", "delay", i, d, w, o] =>
+    match nat? i, nat? d, nat? w, nat? o with
+    | some i, some d, some w, some o => (s, if o ≤ doneBound i schedDivisor d w then "yes" else "no")
+    | _, _, _, _ => (s, "bad-op")
+  | ["bound", i, d, w] =>
+    match nat? i, nat? d, nat? w with
+    | some i, some d, some w => (s, toString (doneBound i schedDivisor d w))
+    | _, _, _ => (s, "bad-op")
+  | ["provision", mode, nu, nf, fl] =>
+    let active? : Option Bool := if mode = "active" then some true else if mode = "background" then some false else none
+    let fail? : Option (Option Nat) := if fl = "-" then some none else (nat? fl).map some
+    match active?, nat? nu, nat? nf, fail? with
+    | some a, some nu, some nf, some fl =>
+      let cfg : ProvCfg := { urls := List.range nu, files := (List.range nf).map (· + nu), active := a }
+      let fetchOk : Nat → Bool := fun l => match fl with | some f => l != f | none => true
+      match provision facts sched_addCrlUrlsFromConfig sched_addCrlFilesFromConfig fetchOk cfg schedProvision {} with
+      | some st =>
+        let k := ((List.range (nu + nf)).filter st.inForce).length
+        (s, s!"ok inforce={k}/{nu + nf} ticker={st.tickerStarted}")
+      | none => (s, "error")
+    | _, _, _, _ => (s, "bad-op")
+  | _ => (s, "bad-op")
 
 end Crv.Driver.Sched
